@@ -171,9 +171,18 @@ func cmdCheck(args []string) {
 	var solverMs int64
 	have := map[string]bool{}
 	canaries := 0
+	var deadPaths []string
+	var newDead []string
 	for _, r := range results {
 		have[r.Name] = true
 		solverMs += r.Ms
+		if r.Canary && r.Kind == "path" {
+			canaries++
+			if r.Status == "unsat" {
+				deadPaths = append(deadPaths, r.Name)
+			}
+			continue
+		}
 		if r.Canary {
 			canaries++
 			if r.Status == "unsat" {
@@ -221,6 +230,30 @@ func cmdCheck(args []string) {
 			fmt.Printf("  missing: %s\n", n)
 			total++
 		}
+	}
+	// dead paths must be exactly those recorded for the pinned tree (dead code); a new one means that some
+	// assumed contract contradicts the code around it (vacuity), which would make proofs on that path worthless
+	deadBasePath := filepath.Join(verif, "baseline", pid+".dead.json")
+	var deadBase []string
+	if b, err := os.ReadFile(deadBasePath); err == nil {
+		json.Unmarshal(b, &deadBase)
+	}
+	sort.Strings(deadPaths)
+	if !*updateBaseline {
+		known := map[string]bool{}
+		for _, d := range deadBase {
+			known[d] = true
+		}
+		for _, d := range deadPaths {
+			if !known[d] {
+				notes = append(notes, "unreachable path (not in baseline): "+d)
+				newDead = append(newDead, d)
+			}
+		}
+	} else {
+		b, _ := json.MarshalIndent(deadPaths, "", " ")
+		os.MkdirAll(filepath.Dir(deadBasePath), 0755)
+		os.WriteFile(deadBasePath, b, 0644)
 	}
 	if *updateBaseline {
 		var names []string
@@ -270,6 +303,8 @@ func cmdCheck(args []string) {
 			"canaries_checked":         canaries,
 			"known_findings":           knownLines,
 			"engine_notes":             notes,
+			"dead_paths":               deadPaths,
+			"new_unreachable_paths":    newDead,
 			"undecided_clauses":        undecidedClauses[pid],
 			"contract_files":           eng.db.Files,
 			"slow_obligations_left_to_thorough_tier": skippedSlow,
@@ -363,6 +398,11 @@ func (g *Gen) autoCanaries() []*Obligation {
 			pcs = append(pcs, rp.st.pc)
 		}
 		out = append(out, &Obligation{Name: g.fnShort() + "/canary:exit-reachable", Kind: "canary", Fn: k, PrefixLen: len(g.sc.lines), PC: "(or " + strings.Join(pcs, " ") + " false)", Goal: "false", Canary: true, Script: g.sc})
+	}
+	// path canaries: every return and every loop back edge must stay reachable under the assumed contracts
+	// (an unreachable one is either dead code, recorded in the baseline, or a contradiction among assumptions)
+	for _, pp := range g.pathPoints {
+		out = append(out, &Obligation{Name: g.fnShort() + "/path:" + pp.label, Kind: "path", Fn: k, PrefixLen: pp.prefix, PC: pp.pc, Goal: "false", Canary: true, Script: g.sc})
 	}
 	return out
 }
